@@ -422,6 +422,7 @@ func resultsCmd(job []byte, out *Out) error {
 	var j struct {
 		SerialHunt int   `json:"serialHunt"`
 		PassHunt   int   `json:"passHunt"`
+		WindowHunt int   `json:"windowHunt"`
 		HuntSeed   int64 `json:"huntSeed"`
 		Inputs     []struct {
 			ID   int    `json:"id"`
@@ -476,6 +477,78 @@ func resultsCmd(job []byte, out *Out) error {
 			}
 			perRunner[i]++
 			out.Emit(R{"ev": "res", "id": -2, "t": testIDs[i], "param": defaults[i], "n": 20000, "mode": "passhunt", "seed": j.HuntSeed + 1000003*sd + 7, "panic": "", "isrunner": true, "mutated": false, "r": fromResult(r)})
+		}
+	}
+	// results a hair (< 1e-6) below and above the significance level, by construction: for the monobit and the autocorrelation
+	// test P is a function of one integer statistic, so lengths are scanned for an attainable statistic whose P falls into
+	// the window, and a sequence with exactly that statistic is built (Pass must follow P >= 0.01 to the last digit)
+	if j.WindowHunt > 0 {
+		rng := rand.New(rand.NewSource(j.HuntSeed + 99))
+		found := map[string]int{}
+		for n := 8000; n <= 400000 && (found["mono-"] < j.WindowHunt || found["mono+"] < j.WindowHunt || found["ac-"] < j.WindowHunt || found["ac+"] < j.WindowHunt); n += 8 {
+			for _, t := range []string{"mono", "ac"} {
+				m := n
+				if t == "ac" {
+					m = n - 16
+				}
+				c := 2.5758293035489 * math.Sqrt(float64(m)) // |2k - m| with P = 0.01
+				for _, dev := range []int{int(c) - 1, int(c), int(c) + 1, int(c) + 2} {
+					if dev < 0 || (dev+m)%2 != 0 {
+						continue
+					}
+					P := math.Erfc(float64(dev) / math.Sqrt(2*float64(m)))
+					side := ""
+					if P < 0.01 && P >= 0.01-1e-6 {
+						side = "-"
+					} else if P >= 0.01 && P < 0.01+1e-6 {
+						side = "+"
+					}
+					if side == "" || found[t+side] >= j.WindowHunt {
+						continue
+					}
+					sign := 1
+					if rng.Intn(2) == 0 {
+						sign = -1
+					}
+					k := (m + sign*dev) / 2 // ones (mono) or disagreeing pairs (ac)
+					bits := make([]bool, n)
+					if t == "mono" {
+						for _, i := range rng.Perm(n)[:k] {
+							bits[i] = true
+						}
+					} else {
+						e := make([]bool, m)
+						for _, i := range rng.Perm(m)[:k] {
+							e[i] = true
+						}
+						for i := 0; i < 16; i++ {
+							bits[i] = rng.Intn(2) == 1
+						}
+						for i := 0; i < m; i++ {
+							bits[i+16] = bits[i] != e[i]
+						}
+					}
+					data := bitsToBytes(bits)
+					var r *randomness.TestResult
+					func() {
+						defer func() { recover() }()
+						if t == "mono" {
+							r = randomness.MonoBitFrequency(data)
+						} else {
+							r = randomness.Autocorrelation(data)
+						}
+					}()
+					if r == nil {
+						continue
+					}
+					found[t+side]++
+					param := 0
+					if t == "ac" {
+						param = 16
+					}
+					out.Emit(R{"ev": "res", "id": -3, "t": t, "param": param, "n": n, "mode": "windowhunt" + side, "seed": j.HuntSeed, "panic": "", "isrunner": true, "mutated": false, "r": fromResult(r)})
+				}
+			}
 		}
 	}
 	for _, in := range j.Inputs {
